@@ -23,7 +23,7 @@ func pk(v uint) string {
 
 // Walk lists every record reachable from u (u itself first), with the address
 // gorm's hooks would be invoked on.
-func Walk(u *User, root bool, out *[]Node) { walk(u, root, nil, out) }
+func Walk(u *User, root bool, out *[]Node) { walk(u, root, nil, out, nil) }
 
 func anc(a []string, model, k string) []string {
 	if k == "" {
@@ -32,10 +32,16 @@ func anc(a []string, model, k string) []string {
 	return append(append([]string{}, a...), model+"/"+k)
 }
 
-func walk(u *User, root bool, a []string, out *[]Node) {
+func walk(u *User, root bool, a []string, out *[]Node, path []*User) {
 	if u == nil {
 		return
 	}
+	for _, p := range path {
+		if p == u {
+			return // a reference back to a record on the path: already listed
+		}
+	}
+	path = append(path, u)
 	a = anc(a, "User", pk(u.ID))
 	add := func(model string, ptr interface{}, k string) []string {
 		na := anc(a, model, k)
@@ -46,7 +52,7 @@ func walk(u *User, root bool, a []string, out *[]Node) {
 	if u.Company != nil {
 		add("Company", u.Company, pk(u.Company.ID))
 	}
-	walk(u.Manager, false, a, out)
+	walk(u.Manager, false, a, out, path)
 	if u.Account != nil {
 		add("Account", u.Account, pk(u.Account.ID))
 	}
@@ -63,12 +69,12 @@ func walk(u *User, root bool, a []string, out *[]Node) {
 		add("Toy", &u.Toys[i], pk(u.Toys[i].ID))
 	}
 	for i := range u.Team {
-		walk(&u.Team[i], false, a, out)
+		walk(&u.Team[i], false, a, out, path)
 	}
 	for i := range u.Languages {
 		add("Language", &u.Languages[i], u.Languages[i].Code)
 	}
 	for _, f := range u.Friends {
-		walk(f, false, a, out)
+		walk(f, false, a, out, path)
 	}
 }
